@@ -141,3 +141,43 @@ Proof.
   induction gs as [|x gs IH]; cbn; [discriminate|].
   destruct (String.eqb (fname x) name); [intros [= ->]; now left | intros H; right; auto].
 Qed.
+
+(* ---------- no re-acquisition, for all paths ---------- *)
+
+Lemma nr_from_nth L sl l : forall k i nd st,
+  nr_from L sl k l = true -> nth_error l i = Some nd -> nth (k + i) sl None = Some st ->
+  no_reacq_events L (events nd) st = true.
+Proof.
+  induction l as [|x l IH]; intros k i nd st H Hn Hs.
+  - destruct i; discriminate.
+  - cbn in H. apply andb_true_iff in H as [H1 H2]. destruct i as [|i].
+    + cbn in Hn. injection Hn as <-. rewrite Nat.add_0_r in Hs. rewrite Hs in H1. exact H1.
+    + cbn in Hn. replace (k + S i) with (S k + i) in Hs by lia. eapply IH; eauto.
+Qed.
+
+Lemma nr_path L g sl : check_from L sl 0 g = true -> nr_from L sl 0 g = true ->
+  forall a p b, path g a p b -> forall st, nth a sl None = Some st -> run_path_nr L g a p st = true.
+Proof.
+  intros Hc Hn a p b Hp. induction Hp as [a | a b p c nda Ha Hin Hp IH]; intros st Hst.
+  - cbn. destruct (nth_error g a) as [nd|] eqn:E; [|reflexivity].
+    rewrite (nr_from_nth L sl g 0 a nd st Hn E Hst). cbn. destruct (exec_events L (events nd) st); reflexivity.
+  - cbn. rewrite Ha. rewrite (nr_from_nth L sl g 0 a nda st Hn Ha Hst). cbn.
+    pose proof (check_from_nth L sl g 0 a nda Hc Ha) as Hk. cbn in Hk.
+    destruct (check_node_spec L sl a nda st Hk Hst) as (out & He & Hs & _). rewrite He.
+    apply IH. apply Hs. exact Hin.
+Qed.
+
+(* if [balanced g] and [no_reacq g] then on EVERY finite path of g from the entry - feasible or
+   not - no Acq of a mutex happens while that mutex is held in any mode *)
+Theorem no_reacq_sound g : balanced g = true -> no_reacq g = true ->
+  exists s0, init_state (locks_of g) g = Some s0 /\
+  forall p b, path (nodes g) 0 p b -> run_path_nr (locks_of g) (nodes g) 0 p s0 = true.
+Proof.
+  unfold balanced, no_reacq. destruct (nodes g) as [|n0 ns] eqn:En; [discriminate|].
+  destruct (init_state (locks_of g) g) as [s0|]; [|discriminate].
+  unfold check. intros H Hn. apply andb_true_iff in H as [H1 H2].
+  exists s0. split; [reflexivity|]. intros p b Hp.
+  eapply nr_path; eauto.
+  destruct (nth 0 (solve (locks_of g) (n0 :: ns) s0) None) as [s|]; [|discriminate].
+  apply lstate_eqb_eq in H1. now subst.
+Qed.
